@@ -25,7 +25,10 @@ C4 == <<4, MkClamped(4, <<Half>>, <<0>>)>>
 VolCubic == IF VolMode = 0 THEN {} ELSE
   Volumes({C3}, {L2}, {L3}, {FALSE}, Seed) \cup Volumes({L3}, {C3}, {L2}, {TRUE}, Seed) \cup Volumes({L2}, {L3}, {C3}, {FALSE}, Seed)
   \cup Volumes({C4}, {L2}, {L3}, {FALSE}, Seed)          \* a quartic direction: several passes of the inner A5.8 loop on rows of points
-MCShapes == CurveSet \cup SurfSet \cup VolSet \cup VolCubic
+\* non-normalised knot ranges with 0 strictly inside and a knot AT 0 (a parameter value that is "false" in the implementation language)
+RawZ == <<2, AffineKV(MkClamped(2, <<R(1,4), Half>>, <<1, 1>>), RI(4), RI(-2))>>
+RawSet == Curves({RawZ}, {2}, BOOLEAN, Seed) \cup (IF SurfMode = 0 THEN {} ELSE Surfaces({RawZ}, {L2}, {3}, {FALSE}, Seed) \cup Surfaces({L2}, {RawZ}, {3}, {TRUE}, Seed))
+MCShapes == CurveSet \cup SurfSet \cup VolSet \cup VolCubic \cup RawSet
 
 \* single-direction admissible insertions
 SingleIns(s) == {a \in InsArgs(s, FALSE) :
